@@ -60,3 +60,18 @@ CLAIMS["C03"] = {
             "Held = no relation broken outside recorded known findings.",
     "note": "No membership oracle is needed except 'declared somewhere' (generous over-approximation from js/ref). Inputs whose own code throws (getters, Proxy traps) are not generated. A2/A1 as everywhere.",
 }
+
+# ------------------------------------------------------------------------------------------ C12
+SPEC["C12"] = {
+    "engine": "node",
+    "rule": "cases = rejected (parser, value, options) triples from the generated corpus (members' one-edit mutants, hostile pool, over-long arrays; default and strict mode); "
+            "each is judged by the error-count bounds, the path resolver over every (nested) error path, received-identity, and repeatable rendering. "
+            "distinct_nontrivial = distinct (type key, mode, value class) among rejected triples",
+    "floor": {"quick": 5000, "thorough": 200000},
+}
+CLAIMS["C12"] = {
+    "technique": "runtime monitor with a path-resolver oracle over recorded safeParse().errors / printErrors / parse().message of every rejected value",
+    "text": "Every rejected (validator, value, options) of the corpus is checked: 1..10 errors; each path, including paths inside nested union errors, is resolved against the input "
+            "(property, [i], key()/value()/item() segments; last segment may be a missing property) and `received` must be identical to what is found there; printErrors and the parse() message are rendered twice and must not throw or differ.",
+    "note": "The resolver is reference-free (it only reads the input). Ambiguous segments (a property literally named '[0]') are resolved in every possible way and accepted if one fits. A2/A1 as everywhere.",
+}
